@@ -76,9 +76,19 @@ def print_axioms(module, theorems):
 
 def proof_obligations(module, theorems):
     """Build + audit. Returns dict(obligations, discharged, broken=[names], axioms, detail)."""
+    # (G) regenerate the tables extracted from /repo before building: the generated obligations are then about the current source
+    gen_error = None
+    try:
+        import extract
+        extract.generate()
+    except Exception as ex:
+        gen_error = "extraction from /repo failed (%s: %s)" % (type(ex).__name__, ex)
     ok, out, wall = lean_build()
     r = {"obligations": len(theorems), "discharged": 0, "broken": [], "axioms": {}, "build_ok": ok,
          "build_wall_s": round(wall, 1)}
+    if gen_error:
+        r["broken"] = [gen_error]
+        return r
     if not ok:
         r["broken"] = ["lake build: " + out[-1500:]]
         return r
